@@ -261,7 +261,7 @@ func ReportUnresolved returns (err)
   requires @streams logStream != nil && dbStream != nil
   requires @sink ruc.ReporterConfig.Output != nil && !typeis(ruc.ReporterConfig.Output, "*bufio.Writer") && !typeis(ruc.ReporterConfig.Output, "*encoding/csv.Writer") && TreeInv()
   modifies *
-  modifies ghost(cbLen, cbErr, cbNode, cbStop, cbRet, cbLineNo, cbLine, cbHeader, cbElems, cbNElems, scRd, scPos, privLo, evOf, accKey, accP, accN, accH, bufSink, bufSticky, sinkFailed, sinkPend, prLen, prSink, prArg, prArgs, csvLen, csvW, csvN, csvRow, tnodes, tdepth, tmax, tmapOf, jlen, tvLen, tv, tseg, tvSet, procLen, procTime, procSrc)
+  modifies ghost(cbLen, cbErr, cbNode, cbStop, cbRet, cbLineNo, cbLine, cbHeader, cbElems, cbNElems, scRd, scPos, privLo, evOf, accKey, accP, accN, accH, bufSink, bufSticky, sinkFailed, sinkPend, prLen, prSink, prArg, prArgs, csvLen, csvW, csvN, csvRow, tnodes, tdepth, tmax, tmapOf, jlen, tvLen, tv, tseg, tvSet, adLen, adName, adVal, adSep, adRoot, procLen, procTime, procSrc)
   let out := payload(ruc.ReporterConfig.Output)
   let lrd := payload(logStream)
   let drd := payload(dbStream)
@@ -286,7 +286,7 @@ func ReportTotals returns (err)
   requires @streams logStream != nil && dbStream != nil
   requires @sink rqc.ReporterConfig.Output != nil && !typeis(rqc.ReporterConfig.Output, "*bufio.Writer") && !typeis(rqc.ReporterConfig.Output, "*encoding/csv.Writer") && TreeInv()
   modifies *
-  modifies ghost(cbLen, cbErr, cbNode, cbStop, cbRet, cbLineNo, cbLine, cbHeader, cbElems, cbNElems, scRd, scPos, privLo, evOf, accKey, accP, accN, accH, bufSink, bufSticky, sinkFailed, sinkPend, prLen, prSink, prArg, prArgs, csvLen, csvW, csvN, csvRow, tnodes, tdepth, tmax, tmapOf, jlen, tvLen, tv, tseg, tvSet, procLen, procTime, procSrc)
+  modifies ghost(cbLen, cbErr, cbNode, cbStop, cbRet, cbLineNo, cbLine, cbHeader, cbElems, cbNElems, scRd, scPos, privLo, evOf, accKey, accP, accN, accH, bufSink, bufSticky, sinkFailed, sinkPend, prLen, prSink, prArg, prArgs, csvLen, csvW, csvN, csvRow, tnodes, tdepth, tmax, tmapOf, jlen, tvLen, tv, tseg, tvSet, adLen, adName, adVal, adSep, adRoot, procLen, procTime, procSrc)
   let out := payload(rqc.ReporterConfig.Output)
   let lrd := payload(logStream)
   let drd := payload(dbStream)
@@ -302,7 +302,7 @@ func ReportQuantity returns (err)
   requires @streams logStream != nil
   requires @sink rqc.ReporterConfig.Output != nil && !typeis(rqc.ReporterConfig.Output, "*bufio.Writer") && !typeis(rqc.ReporterConfig.Output, "*encoding/csv.Writer") && TreeInv()
   modifies *
-  modifies ghost(cbLen, cbErr, cbNode, cbStop, cbRet, cbLineNo, cbLine, cbHeader, cbElems, cbNElems, scRd, scPos, privLo, evOf, accKey, accP, accN, accH, bufSink, bufSticky, sinkFailed, sinkPend, prLen, prSink, prArg, prArgs, csvLen, csvW, csvN, csvRow, tnodes, tdepth, tmax, tmapOf, jlen, tvLen, tv, tseg, tvSet, procLen, procTime, procSrc)
+  modifies ghost(cbLen, cbErr, cbNode, cbStop, cbRet, cbLineNo, cbLine, cbHeader, cbElems, cbNElems, scRd, scPos, privLo, evOf, accKey, accP, accN, accH, bufSink, bufSticky, sinkFailed, sinkPend, prLen, prSink, prArg, prArgs, csvLen, csvW, csvN, csvRow, tnodes, tdepth, tmax, tmapOf, jlen, tvLen, tv, tseg, tvSet, adLen, adName, adVal, adSep, adRoot, procLen, procTime, procSrc)
   let out := payload(rqc.ReporterConfig.Output)
   let lrd := payload(logStream)
   let cc := rqc.ParserConfig.CommentChar
@@ -326,7 +326,7 @@ func ReportElement returns (err)
   calluse SliceStable#1 elements
   calluse SliceStable#2 elements
   modifies *
-  modifies ghost(cbLen, cbErr, cbNode, cbStop, cbRet, cbLineNo, cbLine, cbHeader, cbElems, cbNElems, scRd, scPos, privLo, evOf, accKey, accP, accN, accH, bufSink, bufSticky, sinkFailed, sinkPend, prLen, prSink, prArg, prArgs, csvLen, csvW, csvN, csvRow, tnodes, tdepth, tmax, tmapOf, jlen, tvLen, tv, tseg, tvSet, procLen, procTime, procSrc, rbase, rowsN)
+  modifies ghost(cbLen, cbErr, cbNode, cbStop, cbRet, cbLineNo, cbLine, cbHeader, cbElems, cbNElems, scRd, scPos, privLo, evOf, accKey, accP, accN, accH, bufSink, bufSticky, sinkFailed, sinkPend, prLen, prSink, prArg, prArgs, csvLen, csvW, csvN, csvRow, tnodes, tdepth, tmax, tmapOf, jlen, tvLen, tv, tseg, tvSet, adLen, adName, adVal, adSep, adRoot, procLen, procTime, procSrc, rbase, rowsN)
   let out := payload(rec.ReporterConfig.Output)
   let drd := payload(dbStream)
   let cc := rec.ParserConfig.CommentChar
@@ -378,30 +378,30 @@ func ReportElement returns (err)
 // ---------------------------------------------------------------------------------------------
 type report.reportElementCmd(dbStream, rc) returns (err)
   modifies *
-  modifies ghost(cbLen, cbErr, cbNode, cbStop, cbRet, cbLineNo, cbLine, cbHeader, cbElems, cbNElems, scRd, scPos, privLo, evOf, accKey, accP, accN, accH, bufSink, bufSticky, sinkFailed, sinkPend, prLen, prSink, prArg, prArgs, csvLen, csvW, csvN, csvRow, tnodes, tdepth, tmax, tmapOf, jlen, tvLen, tv, tseg, tvSet, procLen, procTime, procSrc, lastOpen, cfgRd)
+  modifies ghost(cbLen, cbErr, cbNode, cbStop, cbRet, cbLineNo, cbLine, cbHeader, cbElems, cbNElems, scRd, scPos, privLo, evOf, accKey, accP, accN, accH, bufSink, bufSticky, sinkFailed, sinkPend, prLen, prSink, prArg, prArgs, csvLen, csvW, csvN, csvRow, tnodes, tdepth, tmax, tmapOf, jlen, tvLen, tv, tseg, tvSet, adLen, adName, adVal, adSep, adRoot, procLen, procTime, procSrc, lastOpen, cfgRd)
 
 type report.reportUnresolvedCmd(logStream, dbStream, rc) returns (err)
   modifies *
-  modifies ghost(cbLen, cbErr, cbNode, cbStop, cbRet, cbLineNo, cbLine, cbHeader, cbElems, cbNElems, scRd, scPos, privLo, evOf, accKey, accP, accN, accH, bufSink, bufSticky, sinkFailed, sinkPend, prLen, prSink, prArg, prArgs, csvLen, csvW, csvN, csvRow, tnodes, tdepth, tmax, tmapOf, jlen, tvLen, tv, tseg, tvSet, procLen, procTime, procSrc, lastOpen, cfgRd)
+  modifies ghost(cbLen, cbErr, cbNode, cbStop, cbRet, cbLineNo, cbLine, cbHeader, cbElems, cbNElems, scRd, scPos, privLo, evOf, accKey, accP, accN, accH, bufSink, bufSticky, sinkFailed, sinkPend, prLen, prSink, prArg, prArgs, csvLen, csvW, csvN, csvRow, tnodes, tdepth, tmax, tmapOf, jlen, tvLen, tv, tseg, tvSet, adLen, adName, adVal, adSep, adRoot, procLen, procTime, procSrc, lastOpen, cfgRd)
 
 type report.reportQuantityCmd(logStream, rc) returns (err)
   modifies *
-  modifies ghost(cbLen, cbErr, cbNode, cbStop, cbRet, cbLineNo, cbLine, cbHeader, cbElems, cbNElems, scRd, scPos, privLo, evOf, accKey, accP, accN, accH, bufSink, bufSticky, sinkFailed, sinkPend, prLen, prSink, prArg, prArgs, csvLen, csvW, csvN, csvRow, tnodes, tdepth, tmax, tmapOf, jlen, tvLen, tv, tseg, tvSet, procLen, procTime, procSrc, lastOpen, cfgRd)
+  modifies ghost(cbLen, cbErr, cbNode, cbStop, cbRet, cbLineNo, cbLine, cbHeader, cbElems, cbNElems, scRd, scPos, privLo, evOf, accKey, accP, accN, accH, bufSink, bufSticky, sinkFailed, sinkPend, prLen, prSink, prArg, prArgs, csvLen, csvW, csvN, csvRow, tnodes, tdepth, tmax, tmapOf, jlen, tvLen, tv, tseg, tvSet, adLen, adName, adVal, adSep, adRoot, procLen, procTime, procSrc, lastOpen, cfgRd)
 
 type report.reportTotalsCmd(logStream, dbStream, rc) returns (err)
   modifies *
-  modifies ghost(cbLen, cbErr, cbNode, cbStop, cbRet, cbLineNo, cbLine, cbHeader, cbElems, cbNElems, scRd, scPos, privLo, evOf, accKey, accP, accN, accH, bufSink, bufSticky, sinkFailed, sinkPend, prLen, prSink, prArg, prArgs, csvLen, csvW, csvN, csvRow, tnodes, tdepth, tmax, tmapOf, jlen, tvLen, tv, tseg, tvSet, procLen, procTime, procSrc, lastOpen, cfgRd)
+  modifies ghost(cbLen, cbErr, cbNode, cbStop, cbRet, cbLineNo, cbLine, cbHeader, cbElems, cbNElems, scRd, scPos, privLo, evOf, accKey, accP, accN, accH, bufSink, bufSticky, sinkFailed, sinkPend, prLen, prSink, prArg, prArgs, csvLen, csvW, csvN, csvRow, tnodes, tdepth, tmax, tmapOf, jlen, tvLen, tv, tseg, tvSet, adLen, adName, adVal, adSep, adRoot, procLen, procTime, procSrc, lastOpen, cfgRd)
 
 type report.withFileReaders(fileNames, cb) returns (err)
   modifies *
-  modifies ghost(cbLen, cbErr, cbNode, cbStop, cbRet, cbLineNo, cbLine, cbHeader, cbElems, cbNElems, scRd, scPos, privLo, evOf, accKey, accP, accN, accH, bufSink, bufSticky, sinkFailed, sinkPend, prLen, prSink, prArg, prArgs, csvLen, csvW, csvN, csvRow, tnodes, tdepth, tmax, tmapOf, jlen, tvLen, tv, tseg, tvSet, procLen, procTime, procSrc, lastOpen, cfgRd)
+  modifies ghost(cbLen, cbErr, cbNode, cbStop, cbRet, cbLineNo, cbLine, cbHeader, cbElems, cbNElems, scRd, scPos, privLo, evOf, accKey, accP, accN, accH, bufSink, bufSticky, sinkFailed, sinkPend, prLen, prSink, prArg, prArgs, csvLen, csvW, csvN, csvRow, tnodes, tdepth, tmax, tmapOf, jlen, tvLen, tv, tseg, tvSet, adLen, adName, adVal, adSep, adRoot, procLen, procTime, procSrc, lastOpen, cfgRd)
 
 func newReportElementTotalCommand$2$1$1 returns (err)
   props C16 C11 C07 C08
   requires @streams len(streams) == 1 && o != nil && reportElement != nil && c != nil
   dyncall 1 report.reportElementCmd
   modifies *
-  modifies ghost(cbLen, cbErr, cbNode, cbStop, cbRet, cbLineNo, cbLine, cbHeader, cbElems, cbNElems, scRd, scPos, privLo, evOf, accKey, accP, accN, accH, bufSink, bufSticky, sinkFailed, sinkPend, prLen, prSink, prArg, prArgs, csvLen, csvW, csvN, csvRow, tnodes, tdepth, tmax, tmapOf, jlen, tvLen, tv, tseg, tvSet, procLen, procTime, procSrc, lastOpen, cfgRd)
+  modifies ghost(cbLen, cbErr, cbNode, cbStop, cbRet, cbLineNo, cbLine, cbHeader, cbElems, cbNElems, scRd, scPos, privLo, evOf, accKey, accP, accN, accH, bufSink, bufSticky, sinkFailed, sinkPend, prLen, prSink, prArg, prArgs, csvLen, csvW, csvN, csvRow, tnodes, tdepth, tmax, tmapOf, jlen, tvLen, tv, tseg, tvSet, adLen, adName, adVal, adSep, adRoot, procLen, procTime, procSrc, lastOpen, cfgRd)
   ghost before dyncall 1 {
     assert @streams [C16] #arg0 == streams[0]
     assert @wiring [C16 C11 C07] #arg1.ParserConfig == o.ParserConfig && #arg1.ResolverConfig == o.ResolverConfig && #arg1.ReporterConfig == o.ReporterConfig && #arg1.Descending == CtxIsSet(c, "desc") && #arg1.ElementName == ArgsFirst(CtxArgs(c))
@@ -412,7 +412,7 @@ func newReportElementTotalCommand$2$1 returns (err)
   requires @loaded o != nil && cu.WithFileReaders != nil
   dyncall 1 report.withFileReaders
   modifies *
-  modifies ghost(cbLen, cbErr, cbNode, cbStop, cbRet, cbLineNo, cbLine, cbHeader, cbElems, cbNElems, scRd, scPos, privLo, evOf, accKey, accP, accN, accH, bufSink, bufSticky, sinkFailed, sinkPend, prLen, prSink, prArg, prArgs, csvLen, csvW, csvN, csvRow, tnodes, tdepth, tmax, tmapOf, jlen, tvLen, tv, tseg, tvSet, procLen, procTime, procSrc, lastOpen, cfgRd)
+  modifies ghost(cbLen, cbErr, cbNode, cbStop, cbRet, cbLineNo, cbLine, cbHeader, cbElems, cbNElems, scRd, scPos, privLo, evOf, accKey, accP, accN, accH, bufSink, bufSticky, sinkFailed, sinkPend, prLen, prSink, prArg, prArgs, csvLen, csvW, csvN, csvRow, tnodes, tdepth, tmax, tmapOf, jlen, tvLen, tv, tseg, tvSet, adLen, adName, adVal, adSep, adRoot, procLen, procTime, procSrc, lastOpen, cfgRd)
   ghost before dyncall 1 {
     assert @files [C16] len(#arg0) == 1 && #arg0[0] == o.GlobalConfig.DbFileName
   }
@@ -422,7 +422,7 @@ func newReportUnresolvedCommand$1$1$1 returns (err)
   requires @streams len(streams) == 2 && o != nil && reportUnresolved != nil
   dyncall 1 report.reportUnresolvedCmd
   modifies *
-  modifies ghost(cbLen, cbErr, cbNode, cbStop, cbRet, cbLineNo, cbLine, cbHeader, cbElems, cbNElems, scRd, scPos, privLo, evOf, accKey, accP, accN, accH, bufSink, bufSticky, sinkFailed, sinkPend, prLen, prSink, prArg, prArgs, csvLen, csvW, csvN, csvRow, tnodes, tdepth, tmax, tmapOf, jlen, tvLen, tv, tseg, tvSet, procLen, procTime, procSrc, lastOpen, cfgRd)
+  modifies ghost(cbLen, cbErr, cbNode, cbStop, cbRet, cbLineNo, cbLine, cbHeader, cbElems, cbNElems, scRd, scPos, privLo, evOf, accKey, accP, accN, accH, bufSink, bufSticky, sinkFailed, sinkPend, prLen, prSink, prArg, prArgs, csvLen, csvW, csvN, csvRow, tnodes, tdepth, tmax, tmapOf, jlen, tvLen, tv, tseg, tvSet, adLen, adName, adVal, adSep, adRoot, procLen, procTime, procSrc, lastOpen, cfgRd)
   ghost before dyncall 1 {
     assert @streams [C16] #arg0 == streams[1] && #arg1 == streams[0]
     assert @wiring [C16 C06 C11] #arg2.DateFormat == o.GlobalConfig.DateFormat && #arg2.ParserConfig == o.ParserConfig && #arg2.ResolverConfig == o.ResolverConfig && #arg2.ReporterConfig == o.ReporterConfig && #arg2.FilterConfig == o.FilterConfig
@@ -433,7 +433,7 @@ func newReportUnresolvedCommand$1$1 returns (err)
   requires @loaded o != nil && cu.WithFileReaders != nil
   dyncall 1 report.withFileReaders
   modifies *
-  modifies ghost(cbLen, cbErr, cbNode, cbStop, cbRet, cbLineNo, cbLine, cbHeader, cbElems, cbNElems, scRd, scPos, privLo, evOf, accKey, accP, accN, accH, bufSink, bufSticky, sinkFailed, sinkPend, prLen, prSink, prArg, prArgs, csvLen, csvW, csvN, csvRow, tnodes, tdepth, tmax, tmapOf, jlen, tvLen, tv, tseg, tvSet, procLen, procTime, procSrc, lastOpen, cfgRd)
+  modifies ghost(cbLen, cbErr, cbNode, cbStop, cbRet, cbLineNo, cbLine, cbHeader, cbElems, cbNElems, scRd, scPos, privLo, evOf, accKey, accP, accN, accH, bufSink, bufSticky, sinkFailed, sinkPend, prLen, prSink, prArg, prArgs, csvLen, csvW, csvN, csvRow, tnodes, tdepth, tmax, tmapOf, jlen, tvLen, tv, tseg, tvSet, adLen, adName, adVal, adSep, adRoot, procLen, procTime, procSrc, lastOpen, cfgRd)
   ghost before dyncall 1 {
     assert @files [C16] len(#arg0) == 2 && #arg0[0] == o.GlobalConfig.DbFileName && #arg0[1] == o.GlobalConfig.LogFileName
   }
@@ -443,7 +443,7 @@ func newReportQuantityCommand$1$1$1 returns (err)
   requires @streams len(streams) == 1 && o != nil && reportQuantity != nil && c != nil
   dyncall 1 report.reportQuantityCmd
   modifies *
-  modifies ghost(cbLen, cbErr, cbNode, cbStop, cbRet, cbLineNo, cbLine, cbHeader, cbElems, cbNElems, scRd, scPos, privLo, evOf, accKey, accP, accN, accH, bufSink, bufSticky, sinkFailed, sinkPend, prLen, prSink, prArg, prArgs, csvLen, csvW, csvN, csvRow, tnodes, tdepth, tmax, tmapOf, jlen, tvLen, tv, tseg, tvSet, procLen, procTime, procSrc, lastOpen, cfgRd)
+  modifies ghost(cbLen, cbErr, cbNode, cbStop, cbRet, cbLineNo, cbLine, cbHeader, cbElems, cbNElems, scRd, scPos, privLo, evOf, accKey, accP, accN, accH, bufSink, bufSticky, sinkFailed, sinkPend, prLen, prSink, prArg, prArgs, csvLen, csvW, csvN, csvRow, tnodes, tdepth, tmax, tmapOf, jlen, tvLen, tv, tseg, tvSet, adLen, adName, adVal, adSep, adRoot, procLen, procTime, procSrc, lastOpen, cfgRd)
   ghost before dyncall 1 {
     assert @streams [C16] #arg0 == streams[0]
     assert @wiring [C16 C06 C07] #arg1.DateFormat == o.GlobalConfig.DateFormat && #arg1.ParserConfig == o.ParserConfig && #arg1.ReporterConfig == o.ReporterConfig && #arg1.FilterConfig == o.FilterConfig && #arg1.Descending == CtxIsSet(c, "desc")
@@ -454,7 +454,7 @@ func newReportQuantityCommand$1$1 returns (err)
   requires @loaded o != nil && cu.WithFileReaders != nil
   dyncall 1 report.withFileReaders
   modifies *
-  modifies ghost(cbLen, cbErr, cbNode, cbStop, cbRet, cbLineNo, cbLine, cbHeader, cbElems, cbNElems, scRd, scPos, privLo, evOf, accKey, accP, accN, accH, bufSink, bufSticky, sinkFailed, sinkPend, prLen, prSink, prArg, prArgs, csvLen, csvW, csvN, csvRow, tnodes, tdepth, tmax, tmapOf, jlen, tvLen, tv, tseg, tvSet, procLen, procTime, procSrc, lastOpen, cfgRd)
+  modifies ghost(cbLen, cbErr, cbNode, cbStop, cbRet, cbLineNo, cbLine, cbHeader, cbElems, cbNElems, scRd, scPos, privLo, evOf, accKey, accP, accN, accH, bufSink, bufSticky, sinkFailed, sinkPend, prLen, prSink, prArg, prArgs, csvLen, csvW, csvN, csvRow, tnodes, tdepth, tmax, tmapOf, jlen, tvLen, tv, tseg, tvSet, adLen, adName, adVal, adSep, adRoot, procLen, procTime, procSrc, lastOpen, cfgRd)
   ghost before dyncall 1 {
     assert @files [C16] len(#arg0) == 1 && #arg0[0] == o.GlobalConfig.LogFileName
   }
@@ -464,7 +464,7 @@ func NewReportTotalsCommand$1$1$1 returns (err)
   requires @streams len(streams) == 2 && o != nil && reportTotals != nil
   dyncall 1 report.reportTotalsCmd
   modifies *
-  modifies ghost(cbLen, cbErr, cbNode, cbStop, cbRet, cbLineNo, cbLine, cbHeader, cbElems, cbNElems, scRd, scPos, privLo, evOf, accKey, accP, accN, accH, bufSink, bufSticky, sinkFailed, sinkPend, prLen, prSink, prArg, prArgs, csvLen, csvW, csvN, csvRow, tnodes, tdepth, tmax, tmapOf, jlen, tvLen, tv, tseg, tvSet, procLen, procTime, procSrc, lastOpen, cfgRd)
+  modifies ghost(cbLen, cbErr, cbNode, cbStop, cbRet, cbLineNo, cbLine, cbHeader, cbElems, cbNElems, scRd, scPos, privLo, evOf, accKey, accP, accN, accH, bufSink, bufSticky, sinkFailed, sinkPend, prLen, prSink, prArg, prArgs, csvLen, csvW, csvN, csvRow, tnodes, tdepth, tmax, tmapOf, jlen, tvLen, tv, tseg, tvSet, adLen, adName, adVal, adSep, adRoot, procLen, procTime, procSrc, lastOpen, cfgRd)
   ghost before dyncall 1 {
     assert @streams [C16] #arg0 == streams[1] && #arg1 == streams[0]
     assert @wiring [C16 C06 C11 C07] #arg2.DateFormat == o.GlobalConfig.DateFormat && #arg2.ParserConfig == o.ParserConfig && #arg2.ResolverConfig == o.ResolverConfig && #arg2.ReporterConfig == o.ReporterConfig && #arg2.FilterConfig == o.FilterConfig
@@ -475,7 +475,7 @@ func NewReportTotalsCommand$1$1 returns (err)
   requires @loaded o != nil && cu.WithFileReaders != nil
   dyncall 1 report.withFileReaders
   modifies *
-  modifies ghost(cbLen, cbErr, cbNode, cbStop, cbRet, cbLineNo, cbLine, cbHeader, cbElems, cbNElems, scRd, scPos, privLo, evOf, accKey, accP, accN, accH, bufSink, bufSticky, sinkFailed, sinkPend, prLen, prSink, prArg, prArgs, csvLen, csvW, csvN, csvRow, tnodes, tdepth, tmax, tmapOf, jlen, tvLen, tv, tseg, tvSet, procLen, procTime, procSrc, lastOpen, cfgRd)
+  modifies ghost(cbLen, cbErr, cbNode, cbStop, cbRet, cbLineNo, cbLine, cbHeader, cbElems, cbNElems, scRd, scPos, privLo, evOf, accKey, accP, accN, accH, bufSink, bufSticky, sinkFailed, sinkPend, prLen, prSink, prArg, prArgs, csvLen, csvW, csvN, csvRow, tnodes, tdepth, tmax, tmapOf, jlen, tvLen, tv, tseg, tvSet, adLen, adName, adVal, adSep, adRoot, procLen, procTime, procSrc, lastOpen, cfgRd)
   ghost before dyncall 1 {
     assert @files [C16] len(#arg0) == 2 && #arg0[0] == o.GlobalConfig.DbFileName && #arg0[1] == o.GlobalConfig.LogFileName
   }
